@@ -39,7 +39,9 @@ func Context() context.Context {
 	close(onlyOneSignalHandler)
 
 	ctx, cancel := context.WithCancelCause(context.Background())
-	sigCh := make(chan os.Signal, 1)
+	// Room for both signals: os/signal does not block when sending, so with a single slot a second signal that arrives
+	// before the goroutine below has taken the first one would be dropped (and the process would not exit).
+	sigCh := make(chan os.Signal, 2)
 	signal.Notify(sigCh, shutdownSignals...)
 
 	go func() {
